@@ -381,6 +381,31 @@ Proof.
 Qed.
 Print Assumptions C12_inline_enum.
 
+(* ... a field over an enum carries no pattern and its items are no messages, so it is always
+   evaluable: the hypothesis goes away *)
+Theorem C12_inline_enum_full :
+  forall re_ok re_match pat_sem, engine_ok re_ok re_match pat_sem ->
+  forall idx d i c fv r l,
+    let env := env_of_decl (ie_decl (p_name d) i) in
+    wf_env env = true -> key_placement_ok d = true -> item_of (p_ty d) = TEnum r l ->
+    write_inline_enum idx d i = Ok c -> fvalue_typed d fv = true ->
+    (validate_sem re_ok re_match (defined_numbers env) (fst c) fv = VAccept <-> rule_sem pat_sem env d fv) /\
+    (validate_sem re_ok re_match (defined_numbers env) (fst c) fv = VReject <-> ~ rule_sem pat_sem env d fv).
+Proof. exact c12_inline_enum_full. Qed.
+Print Assumptions C12_inline_enum_full.
+
+(* observation (not a finding: schema.proto gives entity.primaryKey a meaning only on the keys
+   of an entity, i.e. singular properties — key_placement_ok keeps these out of the quantifier):
+   a primary key inside an ARRAY makes the array required, inside a MAP it does not *)
+Example C12_primary_key_inside_array_or_map :
+  let env := EE [] None [] in
+  let k := TKey None (Some (EK (Some (EPrimary true)) None)) None in
+  let req (o : outcome fout) := match o with Ok o => match fo_val o with Some c => c_req c | None => false end | _ => false end in
+  req (write_prop env 0%N (P [97%N] false false (PSingle k) [])) = true /\
+  req (write_prop env 0%N (P [97%N] false false (PArray None None k) [])) = true /\
+  req (write_prop env 0%N (P [97%N] false false (PMap None k) [])) = false.
+Proof. cbv zeta. repeat split; vm_compute; reflexivity. Qed.
+
 (* ... and to messages that hold messages: inline types (README "Inline Types"). A declaration
    tree [nschema] of objects (model/RulesNested.v) compiles to a message with nested
    messages; a value [mvalue] gives the field values of the message and, for every inline
